@@ -654,6 +654,11 @@ class Driver:
                 return Opq("field." + a)
             if a in ("copy", "data", "average", "phydata", "isnan", "neq", "nelem"):
                 return ("fieldattr", o, a)
+            if self.p.has_cls("field.fdata"):
+                # another method of the field class (reset, set ...): its body, run on the abstract field
+                g = self.p.resolve(self.p.cls("field.fdata"), a)
+                if g is not None and g.has_self and not g.is_property:
+                    return ("fieldmeth", o, g)
             raise AnalysisError("%s:%d field attribute .%s" % (func.qualname, node.lineno, a))
         if isinstance(o, ListObj) and a in ("append", "extend"):
             return ("listmeth", o, a)
@@ -922,7 +927,7 @@ class Driver:
             return v
         if isinstance(v, list):
             return [self.remap(s, x) for x in v]
-        if isinstance(v, tuple) and v and v[0] in ("fieldattr", "listmeth"):
+        if isinstance(v, tuple) and v and v[0] in ("fieldattr", "listmeth", "fieldmeth"):
             return (v[0], self.remap(s, v[1]), v[2])
         return v
 
@@ -942,6 +947,8 @@ class Driver:
                 s.events.append(("copy", o.id, n.id, ln))
                 return [(s, n)]
             return [(s, Opq("field." + a))]
+        if isinstance(f, tuple) and f[0] == "fieldmeth":
+            return self.call_method(f[2], args, kw, s, func, node, recv=f[1])
         if isinstance(f, tuple) and f[0] == "listmeth":
             _, o, a = f
             if a == "append":
@@ -1103,7 +1110,7 @@ class Driver:
     # summarised / inlined methods of self
     SUMMARISED = ("step", "_check_end", "_parse_monitors", "calcrhs", "_remove_monitor_output", "mon_residual", "mon_dataavg")
 
-    def call_method(self, f, args, kw, s, func, node):
+    def call_method(self, f, args, kw, s, func, node, recv=None):
         ln = node.lineno
         name = f.name
         if name == "step":
@@ -1147,7 +1154,7 @@ class Driver:
                 env = {}
                 params = ["<static>"] + list(params)
             else:
-                env = {params[0]: SelfRef()}
+                env = {params[0]: recv if recv is not None else SelfRef()}
             for pn, a in zip(params[1:], args):
                 env[pn] = a
             for pn in params[1 + len(args):]:
